@@ -5,7 +5,7 @@
 # 3. stores everything under /verif/seeded/<PROP>-<N>/
 set -u
 P="$1"; N="$2"; CRATE="$3"; DEMO="$4"; TIER="${5:-quick}"
-SRC="/tmp/mut-$P/$N"; WT="/tmp/wt-$P"; OUT="/verif/seeded/$P-$N"
+SRC="${SRC_BASE:-/tmp/mut-}$P/$N"; WT="${WT_BASE:-/tmp/wt-}$P"; TAG="${ID_TAG:-}"; OUT="/verif/seeded/$P-$TAG$N"
 export CARGO_NET_OFFLINE=true
 export CARGO_TARGET_DIR="$WT/target"
 mkdir -p "$OUT" "$WT/$CRATE/tests"
@@ -26,16 +26,16 @@ for t in $(grep -E "^test .* \.\.\. FAILED" "$OUT/existing_tests_with.log" | gre
 done
 if [ "$other_fail" -eq 0 ] && grep -q "test result" "$OUT/existing_tests_with.log" && ! grep -q "^error\[" "$OUT/existing_tests_with.log"; then r_tests=0; fi
 git -C "$WT" checkout -- . ; git -C "$WT" clean -fdq -e target
-echo "[$P-$N] demo without patch: exit $r_without (want 0); with patch: exit $r_with (want != 0); existing $CRATE tests with patch: exit $r_tests (want 0)"
+echo "[$P-$TAG$N] demo without patch: exit $r_without (want 0); with patch: exit $r_with (want != 0); existing $CRATE tests with patch: exit $r_tests (want 0)"
 # ---- against the checks
 git -C /repo status --short | grep -q . && { echo "/repo not clean"; exit 2; }
 git -C /repo apply "$SRC/patch.diff" || { echo "patch does not apply to /repo"; exit 2; }
 (cd /verif && unset CARGO_TARGET_DIR && VERIF_EVIDENCE_OFF=1 ./check "$P" "$TIER" >"$OUT/check_$TIER.log" 2>&1); r_check=$?
 git -C /repo checkout -- .
 viol=$(grep -c "^VIOLATION" "$OUT/check_$TIER.log")
-echo "[$P-$N] ./check $P $TIER with patch: exit $r_check, VIOLATION lines: $viol"; grep -A1 "^VIOLATION" "$OUT/check_$TIER.log" | grep "class=" | cut -c1-160
+echo "[$P-$TAG$N] ./check $P $TIER with patch: exit $r_check, VIOLATION lines: $viol"; grep -A1 "^VIOLATION" "$OUT/check_$TIER.log" | grep "class=" | cut -c1-160
 cp "$SRC/patch.diff" "$OUT/patch.diff"; cp "$SRC/$DEMO" "$OUT/"; cp "$SRC/notes.md" "$OUT/notes.md" 2>/dev/null; cp "$SRC/README.md" "$OUT/DEMO_README.md" 2>/dev/null
-python3 - "$P" "$N" "$CRATE" "$DEMO" "$r_without" "$r_with" "$r_tests" "$TIER" "$r_check" "$viol" "$OUT" <<'PY'
+python3 - "$P" "$TAG$N" "$CRATE" "$DEMO" "$r_without" "$r_with" "$r_tests" "$TIER" "$r_check" "$viol" "$OUT" <<'PY'
 import json,sys,re
 P,N,CRATE,DEMO,rw,rp,rt,TIER,rc,viol,OUT=sys.argv[1:]
 notes=open(f"{OUT}/notes.md").read() if __import__('os').path.exists(f"{OUT}/notes.md") else ""
